@@ -11,6 +11,7 @@ import (
 	"net/http/httptest"
 	"net/url"
 	"os"
+	"regexp"
 	"strings"
 	"time"
 
@@ -299,7 +300,7 @@ func (wd *world) judge(rs *reqSpec, code int, escaped any, chunks []string) stri
 		wantInfo = 0
 	}
 	if len(beg) != wantInfo || len(end) != wantInfo {
-		return fmt.Sprintf("C15: %d REQ_BEG and %d REQ_END records for the request (id %s), want %d each [%s]", len(beg), len(end), id, wantInfo, desc)
+		return fmt.Sprintf("C15: %d REQ_BEG and %d REQ_END records carry the id the handler saw (counter part %q), want %d each [%s]", len(beg), len(end), idTail(id), wantInfo, desc)
 	}
 	for _, r := range append(append([]*record{}, beg...), end...) {
 		if r.level != "INFO" {
@@ -357,7 +358,17 @@ func (wd *world) judge(rs *reqSpec, code int, escaped any, chunks []string) stri
 	return ""
 }
 
+func idTail(id string) string {
+	if len(id) > 9 {
+		return id[9:]
+	}
+	return id
+}
+
+var reID = regexp.MustCompile(`[A-Z2-7]{8}-`)
+
 func clip(s string) string {
+	s = reID.ReplaceAllString(s, "<prefix>-") // the per-Mux random id prefix must not make messages irreproducible
 	if len(s) > 200 {
 		return s[:120] + "…" + s[len(s)-60:]
 	}
